@@ -235,6 +235,13 @@ func (w *world) stimulate(c *conn) {
 	if s.twice {
 		w.send(c, s.code, s.payload, s.declared, s.label+" (again)")
 	}
+	if c.writing != nil {
+		// the connection's handler is still busy with an earlier message of this peer (e.g. blocked
+		// handing a delivery to a running sync cycle): this message has not been looked at yet, so
+		// nothing can be said about it; the probe below still decides whether the node is responsive
+		r.FP("unread")
+		return
+	}
 	// reject rather than crash: what must end the connection does
 	switch {
 	case s.declared > you.ProtocolMaxMsgSize:
@@ -274,7 +281,15 @@ func (w *world) answer(c *conn) {
 		}
 		hs := view.headers(&q)
 		code, payload = you.BlockHeadersMsg, encodeHeaders(hs, q.Light)
-		switch v := r.C.Intn("hostile-headers-answer", 7); {
+		switch v := r.C.Intn("hostile-headers-answer", 10); {
+		case v >= 7 && len(hs) > 0:
+			t := make([]*types.Header, len(hs))
+			copy(t, hs)
+			i := r.C.Intn("which", len(hs))
+			h := types.CopyHeader(hs[i])
+			how := w.fieldHostile(h)
+			t[i] = h
+			hostile, hlabel = encodeHeaders(t, false), fmt.Sprintf("header %v with %s", h.Number, how)
 		case v == 0 && len(hs) > 1:
 			hostile, hlabel = encodeHeaders(hs[1:], q.Light), "first header missing"
 		case v == 1 && len(hs) > 0:
